@@ -5,7 +5,9 @@
 From Coq Require Import Lia.
 From RM Require Import C20.Model C20.Proofs C20.Sinks C20.SinksProofs.
 From RM Require Gen.C20DumpSeq C20.DumpSeq Gen.C20Wiring C20.Wiring Gen.C20Cli.
-From RM Require Import C20.ClapSpec C20.Clap C20.ClapProofs C20.ClapSinks.
+From RM Require Import C20.ClapSpec C20.Clap C20.ClapProofs C20.ClapSinks C20.ClapSymbols C20.Findings.
+From RM Require Import C20.DumpSpec C20.DumpModel C20.DumpProofs.
+From RM Require Gen.C20DumpProg.
 Open Scope Z_scope.
 
 (* Every flag record is rejected, is the hidden --help-markdown, or has a plan.  [flags] has
@@ -595,3 +597,151 @@ Example c20_nonvacuous_manual_reading :
   items_effect CLI [] [IOptEq "features" "Stable-All"; IWord "a.dmp"]%str = None /\
   find_long CLI "feature"%str = None.
 Proof. repeat split. Qed.
+
+(* ---- round 5, second pass ---- *)
+
+(* the two known findings as EXACT classes (C20/Findings.v): an executable classifier over (flags, environment) that is true
+   exactly for the runs that violate the clause - every flag record, every environment.
+   F-C20b: a failing run whose diagnostic is visible nowhere  <->  --verbose=off and the run ends in one of main.rs's three
+   `error!(..); exit(1)` tails (a rejected --pretty / --brief combination, a read error, a processing error; the log file, if
+   any, could be created).  No other failing run is silent: usage errors and io errors go straight to standard error. *)
+Theorem c20_silent_failure_exactly_known_b : forall f e,
+  (snd (run f e) <> 0 /\ ~ diag_visible f (fst (run f e))) <-> known_b f e = true.
+Proof. exact silent_failure_iff. Qed.
+Print Assumptions c20_silent_failure_exactly_known_b.
+
+(* F-C20d: a failing run that leaves report bytes on the primary output  <->  every sink was created, the dump was read (and
+   processed), and the FIRST failing printer call is an io error (not a broken pipe) that is either (B) the primary report's own
+   call after it had streamed a prefix, or (A) the --cyborg file's JSON after the primary report was written completely *)
+Theorem c20_dirty_failure_exactly_known_d : forall f e, f_help_md f = false ->
+  (snd (run f e) <> 0 /\ sink_dirty e (writer_of f) (fst (run f e))) <-> known_d f e = true.
+Proof. exact dirty_failure_iff. Qed.
+Print Assumptions c20_dirty_failure_exactly_known_d.
+
+Theorem c20_known_d_reading : forall f e, known_d f e = true ->
+  exists p r, decide f = Plan p /\ p_primary p = [r] /\ e_read e = true /\
+    ((e_write e (p_writer p) r = IoErr /\ e_partial e (p_writer p) r = true) \/
+     (e_write e (p_writer p) r = IoOk /\ exists c rj, p_secondary p = Some (c, rj) /\ e_write e (File c) rj = IoErr)).
+Proof. exact known_d_reading. Qed.
+Print Assumptions c20_known_d_reading.
+
+(* ... and such a run does say so: status 1 with `Error: ..` on standard error *)
+Theorem c20_known_d_status : forall f e, f_help_md f = false -> known_d f e = true ->
+  snd (run f e) = 1 /\ In (Diag Stderr) (fst (run f e)).
+Proof. exact known_d_status. Qed.
+Print Assumptions c20_known_d_status.
+
+(* from the argument vector to the HTTP symbol supplier: --symbols-cache / --symbols-tmp / --symbols-download-timeout-secs read
+   off the command line are what http_symbol_supplier receives, with the documented defaults (temp_dir/rust-minidump-cache,
+   temp_dir, 1000 s) when not given; the HTTP supplier iff a --symbols-url is given *)
+Theorem c20_argv_http_arguments : forall pid items out, items_effect CLI [] items = Some out ->
+  sc_symbols_cache (sym_cli_of pid out) = option_map pid (first_value "symbols-cache"%str items) /\
+  sc_symbols_tmp (sym_cli_of pid out) = option_map pid (first_value "symbols-tmp"%str items) /\
+  sc_timeout (sym_cli_of pid out) =
+    match first_value "symbols-download-timeout-secs"%str items with Some s => secs_of s | None => 1000%Z end.
+Proof. exact argv_http_arguments. Qed.
+Print Assumptions c20_argv_http_arguments.
+
+Theorem c20_argv_supplier : forall pid items out, items_effect CLI [] items = Some out ->
+  let paths := (map pid (opt_values "symbols-path"%str items) ++ map pid (tl (words items)))%list in
+  let urls := map pid (opt_values "symbols-url"%str items) in
+  supplier_of (sym_cli_of pid out) =
+    match urls with
+    | _ :: _ =>
+        HttpSupplier paths urls
+          (match first_value "symbols-cache"%str items with Some d => GivenDir (pid d) | None => TempDirCache end)
+          (match first_value "symbols-tmp"%str items with Some d => GivenDir (pid d) | None => TempDir end)
+          (match first_value "symbols-download-timeout-secs"%str items with Some s => secs_of s | None => 1000%Z end)
+    | [] => match paths with _ :: _ => SimpleSupplier paths | [] => NoSupplier end
+    end.
+Proof. exact argv_supplier. Qed.
+Print Assumptions c20_argv_supplier.
+
+(* ---- the --dump mode (print_minidump_dump, main.rs) as a program regenerated from the source (Gen/C20DumpProg.v) and
+   interpreted by C20/DumpModel.v; a minidump is seen through what get_stream::<T>() / get_raw_stream answer per stream kind.
+   The printers that run, in order, for EVERY such view: *)
+Theorem c20_dump_sections_table : forall view,
+  sections RM.Gen.C20DumpProg.DUMP_PROG view = documented_sections view.
+Proof. exact sections_table. Qed.
+Print Assumptions c20_dump_sections_table.
+
+(* every stream kind of the 16 typed and 8 raw ones is printed exactly once when it can be read and not at all otherwise
+   (also the two memory lists, whatever combination of them exists: the take() / or_else logic loses and duplicates nothing) *)
+Theorem c20_dump_each_stream_once : forall view,
+  (forall t, In t typed_kinds ->
+     count_sec (SecStream t) (sections RM.Gen.C20DumpProg.DUMP_PROG view) = if present view t then 1%nat else 0%nat) /\
+  (forall n, In n raw_kinds ->
+     count_sec (SecRaw n) (sections RM.Gen.C20DumpProg.DUMP_PROG view) = if present view n then 1%nat else 0%nat).
+Proof. intro view. split; [exact (typed_stream_once view)|exact (raw_stream_once view)]. Qed.
+Print Assumptions c20_dump_each_stream_once.
+
+(* ... and nothing else is printed *)
+Theorem c20_dump_only_documented_sections : forall view s,
+  In s (sections RM.Gen.C20DumpProg.DUMP_PROG view) -> section_ok view s.
+Proof. exact only_documented_sections. Qed.
+Print Assumptions c20_dump_only_documented_sections.
+
+(* `if let Some(memory64_list) = memory64_list { .. }` (statement 12 of the regenerated program) is dead code *)
+Theorem c20_dump_memory64_branch_dead :
+  nth_error RM.Gen.C20DumpProg.DUMP_PROG 12 = Some (SPrintVar "memory64_list"%str) /\
+  forall view, sections PROG_without_memory64_branch view = sections RM.Gen.C20DumpProg.DUMP_PROG view.
+Proof. split; [exact memory64_branch_is_step_12|exact memory64_branch_dead]. Qed.
+Print Assumptions c20_dump_memory64_branch_dead.
+
+(* io errors in the middle of the dump, any number of sections, any failing call: what reached the sink is whole sections in
+   order and then the beginning of the one whose printer failed - a prefix of the complete dump (F-C20d, class B, for --dump);
+   with no failing call it is the complete dump *)
+Theorem c20_dump_io_error_leaves_prefix : forall rd wr cut secs,
+  (exists tail, dump_text rd secs = fst (write_all rd wr cut 0 secs) ++ tail) /\
+  ((forall j, wr j = IoOk) -> write_all rd wr cut 0 secs = (dump_text rd secs, IoOk)) /\
+  (snd (write_all rd wr cut 0 secs) <> IoOk ->
+     exists done s rest, secs = done ++ s :: rest /\
+       fst (write_all rd wr cut 0 secs) = dump_text rd done ++ firstn (cut (length done)) (rd s) /\
+       snd (write_all rd wr cut 0 secs) = wr (length done) /\ forall j, (j < length done)%nat -> wr j = IoOk).
+Proof.
+  intros rd wr cut secs. split; [exact (write_all_is_prefix_of_dump rd wr cut secs)|].
+  split; [exact (write_all_ok rd wr cut secs 0)|].
+  intro Hne. destruct (write_all_prefix rd wr cut secs 0) as [dn [rest [part [H1 [H2 [_ H4]]]]]].
+  destruct (H4 Hne) as [s [rest' [A [B [C D]]]]]. exists dn, s, rest'. subst rest part. cbn in *. repeat split; assumption.
+Qed.
+Print Assumptions c20_dump_io_error_leaves_prefix.
+
+Example c20_nonvacuous_findings :
+  let fb := {| f_human := false; f_json := false; f_cyborg := None; f_dump := false; f_help_md := false;
+               f_pretty := true; f_brief := false; f_features := StableBasic; f_recover := false;
+               f_output_file := None; f_log_file := Some 3; f_verbose_off := true |} in
+  let e0 := {| e_create := fun _ => IoOk; e_read := true; e_process := true; e_write := fun _ _ => IoOk; e_partial := fun _ _ => false |} in
+  let fd := {| f_human := false; f_json := false; f_cyborg := Some 2; f_dump := false; f_help_md := false;
+               f_pretty := false; f_brief := true; f_features := StableBasic; f_recover := false;
+               f_output_file := Some 1; f_log_file := None; f_verbose_off := false |} in
+  let ed := {| e_create := fun _ => IoOk; e_read := true; e_process := true;
+               e_write := fun w _ => match w with File 2 => IoErr | _ => IoOk end; e_partial := fun _ _ => false |} in
+  let ep := {| e_create := fun _ => IoOk; e_read := true; e_process := true;
+               e_write := fun w _ => match w with File 2 => IoBrokenPipe | _ => IoOk end; e_partial := fun _ _ => false |} in
+  known_b fb e0 = true /\ run fb e0 = ([Create 3; Diag Logger], 1) /\ known_d fb e0 = false /\
+  known_d fd ed = true /\ run fd ed = ([Create 2; Create 1; Written (File 1) HumanBrief; WriteFailed (File 2) (Json false); Diag Stderr], 1) /\
+  known_d fd ep = false /\ snd (run fd ep) = 0 /\ known_b fd ed = false.
+Proof. repeat split. Qed.
+
+Example c20_nonvacuous_dump :
+  let view : dump_view := fun t =>
+    if existsb (str_eqb t) ["MinidumpSystemInfo"; "MinidumpThreadList"; "MinidumpModuleList"; "MinidumpMemoryList";
+                            "MinidumpMemory64List"; "MinidumpException"; "LinuxMaps"]%str then SPresent
+    else if str_eqb t "MinidumpCrashpadInfo"%str then SBroken else SMissing in
+  let rd : section -> bytes := fun s => match s with SecHeader => [1; 2] | SecStream _ => [3; 4; 5] | SecLit _ => [6] | SecRaw _ => [7; 8] end in
+  sections RM.Gen.C20DumpProg.DUMP_PROG view =
+    [SecHeader; SecStream "MinidumpThreadList"; SecStream "MinidumpModuleList"; SecStream "MinidumpMemory64List";
+     SecStream "MinidumpMemoryList"; SecStream "MinidumpException"; SecStream "MinidumpSystemInfo";
+     SecLit "MinidumpCrashpadInfo cannot print invalid data"; SecRaw "LinuxMaps"]%str /\
+  write_all rd (fun k => if Nat.eqb k 2 then IoErr else IoOk) (fun _ => 1%nat) 0 (sections RM.Gen.C20DumpProg.DUMP_PROG view) =
+    ([1; 2; 3; 4; 5; 3], IoErr) /\
+  length RM.Gen.C20DumpProg.DUMP_PROG = 31%nat.
+Proof. repeat split. Qed.
+
+Example c20_nonvacuous_http_arguments :
+  let items := [IOptSp "symbols-url" "http://a/"; IWord "a.dmp"; IOptEq "symbols-cache" "c"; IWord "syms";
+                IOptSp "symbols-download-timeout-secs" "007"; IOptEq "symbols-url" "http://b/"]%str in
+  let pid := fun s => if str_eqb s "c"%str then 5 else if str_eqb s "syms"%str then 6 else if str_eqb s "http://a/"%str then 7 else 8 in
+  exists out, items_effect CLI [] items = Some out /\
+    supplier_of (sym_cli_of pid out) = HttpSupplier [6] [7; 8] (GivenDir 5) TempDir 7.
+Proof. eexists. split; [reflexivity|reflexivity]. Qed.
